@@ -1,0 +1,189 @@
+//! `rcv`: the receiving half of ONE stream (client-initiated unidirectional stream 0 of a server-side
+//! `StreamsState`) driven through the frame-level entry points and `RecvStream` / `Chunks`, outside a
+//! `Connection`. Frame payloads are the ground stream of `sbuf` (byte at offset `o` = `(o * 7 + 3) % 251`).
+//! The connection-level receive window is 2^62 - 1, so only the stream-level window matters.
+//!
+//! rcv new <srw>                         fresh state, stream receive window srw; the half is instantiated
+//! rcv stream <off> <len> <fin> <alloc>  StreamsState::received(STREAM off..off+len, payload_len = alloc)
+//! rcv reset <code> <final>              StreamsState::received_reset
+//! rcv read <ord|unord> <max> [obs]      RecvStream::read(ordered), one Chunks::next(max), finalize
+//! rcv open <ord|unord>                  RecvStream::read(ordered), dropped at once
+//! rcv stop <code>                       RecvStream::stop
+//!
+//! Every response is `<result> | <0|1|2: no entry / entry without Recv / open Recv> <the half as printed by
+//! StreamsState::verif_view, or ->`.
+use bytes::Bytes;
+
+use super::{hex, num, sbuf::ground, Comp, BAD};
+use crate::connection::spaces::Retransmits;
+use crate::connection::streams::{ReadError, ReadableError, RecvStream, StreamsState};
+use crate::frame;
+use crate::{Dir, Side, StreamId, VarInt};
+
+const MAX_LEN: u64 = 1 << 16;
+
+pub(super) struct RcvC {
+    st: StreamsState,
+    pending: Retransmits,
+}
+
+fn fresh(srw: VarInt) -> StreamsState {
+    StreamsState::new(
+        Side::Server,
+        1u32.into(),
+        0u32.into(),
+        0,
+        VarInt::MAX,
+        srw,
+    )
+}
+
+fn id() -> StreamId {
+    StreamId::new(Side::Client, Dir::Uni, 0)
+}
+
+fn mode(s: &str) -> Option<bool> {
+    match s {
+        "ord" => Some(true),
+        "unord" => Some(false),
+        _ => None,
+    }
+}
+
+impl RcvC {
+    pub(super) fn new() -> Self {
+        Self {
+            st: fresh(0u32.into()),
+            pending: Retransmits::default(),
+        }
+    }
+
+    fn view(&self) -> String {
+        let p = self.st.verif_probe(id());
+        let v = self.st.verif_view();
+        let tag = format!(" R{}[", id().0);
+        let half = match v.find(&tag) {
+            Some(i) => v[i + 1..].replace(' ', ";"),
+            None => "-".into(),
+        };
+        format!("{} {}", p.recv, half)
+    }
+
+    fn exec1(&mut self, w: &[&str]) -> Option<String> {
+        Some(match w {
+            ["new", srw] => {
+                self.st = fresh(VarInt::from_u64(num(srw)?).ok()?);
+                self.pending = Retransmits::default();
+                let mut s = RecvStream {
+                    id: id(),
+                    state: &mut self.st,
+                    pending: &mut self.pending,
+                };
+                let res = s.read(true);
+                let ok = res.is_ok();
+                drop(res);
+                if !ok {
+                    return None;
+                }
+                "ok".into()
+            }
+            ["stream", off, len, fin, alloc] => {
+                let (off, len, alloc) = (num(off)?, num(len)?, num(alloc)?);
+                let fin = match *fin {
+                    "0" => false,
+                    "1" => true,
+                    _ => return None,
+                };
+                if len > MAX_LEN || alloc > (1 << 20) {
+                    return None;
+                }
+                let data: Vec<u8> = (0..len).map(|i| ground(off.wrapping_add(i))).collect();
+                let f = frame::Stream {
+                    id: id(),
+                    offset: off,
+                    fin,
+                    data: Bytes::from(data),
+                };
+                match self.st.received(f, alloc as usize) {
+                    Ok(_) => "ok".into(),
+                    Err(e) => format!("err {:?}", e.code),
+                }
+            }
+            ["reset", code, fo] => {
+                let f = frame::ResetStream {
+                    id: id(),
+                    error_code: VarInt::from_u64(num(code)?).ok()?,
+                    final_offset: VarInt::from_u64(num(fo)?).ok()?,
+                };
+                match self.st.received_reset(f) {
+                    Ok(_) => "ok".into(),
+                    Err(e) => format!("err {:?}", e.code),
+                }
+            }
+            ["read", m, max, ..] => {
+                let (ordered, max) = (mode(m)?, num(max)?);
+                let mut s = RecvStream {
+                    id: id(),
+                    state: &mut self.st,
+                    pending: &mut self.pending,
+                };
+                let res = s.read(ordered);
+                let out: String = match res {
+                    Err(ReadableError::ClosedStream) => "err ClosedStream".into(),
+                    Err(ReadableError::IllegalOrderedRead) => "err IllegalOrderedRead".into(),
+                    Ok(mut chunks) => {
+                        let r = match chunks.next(max.min(usize::MAX as u64) as usize) {
+                            Ok(Some(c)) => format!("chunk {} {}", c.offset, hex(&c.bytes)),
+                            Ok(None) => "fin".into(),
+                            Err(ReadError::Blocked) => "blocked".into(),
+                            Err(ReadError::Reset(c)) => format!("reset {}", c.into_inner()),
+                        };
+                        let _ = chunks.finalize();
+                        r
+                    }
+                };
+                out
+            }
+            ["open", m] => {
+                let ordered = mode(m)?;
+                let mut s = RecvStream {
+                    id: id(),
+                    state: &mut self.st,
+                    pending: &mut self.pending,
+                };
+                let res = s.read(ordered);
+                let out: String = match res {
+                    Err(ReadableError::ClosedStream) => "err ClosedStream".into(),
+                    Err(ReadableError::IllegalOrderedRead) => "err IllegalOrderedRead".into(),
+                    Ok(chunks) => {
+                        let _ = chunks.finalize();
+                        "ok".into()
+                    }
+                };
+                out
+            }
+            ["stop", code] => {
+                let code = VarInt::from_u64(num(code)?).ok()?;
+                let mut s = RecvStream {
+                    id: id(),
+                    state: &mut self.st,
+                    pending: &mut self.pending,
+                };
+                match s.stop(code) {
+                    Ok(()) => "ok".into(),
+                    Err(_) => "err ClosedStream".into(),
+                }
+            }
+            _ => return None,
+        })
+    }
+}
+
+impl Comp for RcvC {
+    fn exec(&mut self, w: &[&str]) -> String {
+        match self.exec1(w) {
+            Some(r) => format!("{} | {}", r, self.view()),
+            None => BAD.into(),
+        }
+    }
+}
